@@ -4,6 +4,8 @@ import (
 	"encoding/json"
 	"fmt"
 	"reflect"
+
+	"github.com/google/jsonschema-go/jsonschema"
 )
 
 func init() {
@@ -113,6 +115,71 @@ func init() {
 				typed = append(typed, map[string]any{"r": r1, "text": string(b1), "r2": r2, "text2": string(b2), "shared": shared})
 			}
 			res["typed"] = typed
+		}
+		if len(a.History) > 0 {
+			// several instances of different Go types through ONE fresh Resolved, in the given order (validateArgs.History)
+			fresh := func() (*jsonschema.Resolved, error) {
+				uu, _, herr := buildUniverse(&a)
+				if herr != nil {
+					return nil, herr
+				}
+				return uu.root.Resolve(uu.opts)
+			}
+			mk := func(i int) (reflect.Value, error) {
+				if i < len(a.Insts) {
+					txt, err := untag(a.Insts[i])
+					if err != nil {
+						return reflect.Value{}, err
+					}
+					p := new(any)
+					return reflect.ValueOf(p), json.Unmarshal(txt, p)
+				}
+				v, err := build(a.GInsts[i-len(a.Insts)])
+				if err != nil {
+					return reflect.Value{}, err
+				}
+				if !v.IsValid() {
+					return reflect.ValueOf(new(any)), nil
+				}
+				p := reflect.New(v.Type())
+				p.Elem().Set(v)
+				return p, nil
+			}
+			one, err := fresh()
+			if err != nil {
+				return nil, fmt.Errorf("history: %v", err)
+			}
+			historyFree, historyDetail := true, ""
+			for step, i := range a.History {
+				if i < 0 || i >= len(a.Insts)+len(a.GInsts) {
+					return nil, fmt.Errorf("history: index %d out of range", i)
+				}
+				p, err := mk(i)
+				if err != nil {
+					return nil, err
+				}
+				q, _ := mk(i)
+				own, err := fresh()
+				if err != nil {
+					return nil, fmt.Errorf("history: %v", err)
+				}
+				r := applyOnceP(one, p.Interface())
+				rr := applyOnceP(own, q.Interface())
+				if !historyFree {
+					continue
+				}
+				if r != rr {
+					historyFree, historyDetail = false, fmt.Sprintf("step %d (instance %d): %s, on a Resolved of its own %s", step, i, r, rr)
+				} else if r == "ok" {
+					if !reflect.DeepEqual(p.Elem().Interface(), q.Elem().Interface()) {
+						historyFree, historyDetail = false, fmt.Sprintf("step %d (instance %d): %#v, on a Resolved of its own %#v", step, i, p.Elem().Interface(), q.Elem().Interface())
+					} else if v1, v2 := safeValidate(one, p.Elem().Interface()), safeValidate(own, q.Elem().Interface()); v1 != v2 {
+						historyFree, historyDetail = false, fmt.Sprintf("step %d (instance %d): completed instance %s, on a Resolved of its own %s", step, i, v1, v2)
+					}
+				}
+			}
+			res["history_free"] = historyFree
+			res["history_detail"] = historyDetail
 		}
 		res["alias_free"] = aliasFree
 		res["alias_detail"] = aliasDetail
